@@ -269,9 +269,47 @@ def coqchk_audit(prop, cfg):
     return rc == 0, axioms, out[-3000:]
 
 
+class CoqSlot:
+    """One of a machine-wide pool of evaluation slots (file locks under work/): however many checks run at the same
+    time, at most VERIF_COQ_SLOTS (default: number of CPUs) coqc evaluations of generated case files are alive, which
+    bounds their memory (each needs 0.3-0.6 GB) as well as the load."""
+
+    def __init__(self):
+        self.n = int(os.environ.get("VERIF_COQ_SLOTS") or os.cpu_count() or 16)
+        self.f = None
+
+    def __enter__(self):
+        d = os.path.join(ROOT, "work")
+        os.makedirs(d, exist_ok=True)
+        k = os.getpid()
+        while True:
+            for i in range(self.n):
+                f = open(os.path.join(d, ".coqslot.%d.lock" % ((k + i) % self.n)), "w")
+                try:
+                    fcntl.flock(f, fcntl.LOCK_EX | fcntl.LOCK_NB)
+                    self.f = f
+                    return self
+                except OSError:
+                    f.close()
+            time.sleep(0.2)
+
+    def __exit__(self, *a):
+        self.f.close()
+
+
 def eval_shard(work, fname, timeout):
     t0 = time.time()
-    rc, out = run(["coqc", "-R", COQ, "Verif", "-o", os.path.join(work, fname[:-2] + ".vo"), fname], cwd=work, timeout=timeout)
+    out = ""
+    for attempt in range(3):
+        with CoqSlot():
+            rc, out = run(["coqc", "-R", COQ, "Verif", "-o", os.path.join(work, fname[:-2] + ".vo"), fname], cwd=work, timeout=timeout)
+        if rc == 0:
+            break
+        # killed from outside (out-of-memory killer on a crowded machine) or no diagnostic at all: try again, alone
+        if rc in (-9, 137, -15) and "[timeout after" not in out or not out.strip():
+            time.sleep(2 + 5 * attempt)
+            continue
+        break
     dt = time.time() - t0
     if rc != 0:
         return fname, None, out[-3000:], dt
